@@ -158,6 +158,21 @@ def term_to_S(u):
     return S(u)
 
 
+def _lin_key(arg):
+    """hashable linear-combination key of an exp argument (None if the denominator is not constant)"""
+    if not z3.is_rational_value(arg.d):
+        return None
+    c0, terms = lin_decompose(arg.n, 1 / arg.d.as_fraction())
+    return (c0, tuple(sorted((i, k) for i, (k, a) in terms.items() if k != 0)))
+
+
+def _lin_add(x, y):
+    d = dict(x[1])
+    for i, k in y[1]:
+        d[i] = d.get(i, 0) + k
+    return (x[0] + y[0], tuple(sorted((i, k) for i, k in d.items() if k != 0)))
+
+
 def _syntactically_positive(t):
     if z3.is_rational_value(t):
         return t.as_fraction() > 0
@@ -461,12 +476,21 @@ class S:
             e = a.const
             t = arg.term()
             ax = [e > 0, (e > 1) == (t > 0), (e == 1) == (t == 0)]
-            # pairwise monotonicity with the exp atoms that already exist
-            for b in list(SESSION.atom_names.values()):
-                if b.kind == "exp" and b is not a:
-                    tb = b.arg.term()
-                    ax.append((e < b.const) == (t < tb))
-                    ax.append((e == b.const) == (t == tb))
+            # instantiated product rule: E(s) * E(t) == E(u) whenever s + t == u as linear combinations (atoms at hand only)
+            lin_new = _lin_key(arg)
+            a.extra = lin_new
+            if lin_new is not None:
+                others = [b for b in SESSION.atom_names.values() if b.kind == "exp" and b is not a and b.extra is not None]
+                for b in others:
+                    for c in others:
+                        if b.name <= c.name and _lin_add(b.extra, c.extra) == lin_new:
+                            ax.append(e == b.const * c.const)
+                    d = _lin_add(lin_new, b.extra)
+                    for c in others:
+                        if c is not b and c.extra == d:
+                            ax.append(c.const == e * b.const)
+                    if _lin_add(lin_new, lin_new) == b.extra:
+                        ax.append(b.const == e * e)
             SESSION.add_axiom(*ax, atom=a)
         return S(a.const)
 
